@@ -36,10 +36,10 @@ type rv struct {
 	hv  []rv
 }
 
-func rNum(n float64) rv  { return rv{k: vNum, n: n} }
-func rStr(s string) rv   { return rv{k: vStr, s: s} }
-func rBool(b bool) rv    { return rv{k: vBool, b: b} }
-func rArr(a ...rv) rv    { return rv{k: vArr, arr: a} }
+func rNum(n float64) rv        { return rv{k: vNum, n: n} }
+func rStr(s string) rv         { return rv{k: vStr, s: s} }
+func rBool(b bool) rv          { return rv{k: vBool, b: b} }
+func rArr(a ...rv) rv          { return rv{k: vArr, arr: a} }
 func rHash1(k string, v rv) rv { return rv{k: vHash, hk: []string{k}, hv: []rv{v}} }
 
 type unspec struct{ why string }
@@ -793,13 +793,13 @@ func c05Levels(tier string) []core.Level {
 					emit(core.Case{Fam: "term", N: []int{2, u, 0, i}})
 				}
 				emit(core.Case{Fam: "term", N: []int{4, 0, i}})
-				emit(core.Case{Fam: "term", N: []int{7, 6, 0, i}})          // {k: x}.k
-				emit(core.Case{Fam: "term", N: []int{8, 6, 0, i, 0, 18}})   // {k: x}['k'] via 'k'? operand 18 = 'a'.. uses key a: missing
-				emit(core.Case{Fam: "term", N: []int{8, 4, 0, i, 0, 0}})    // [x][0]
-				emit(core.Case{Fam: "term", N: []int{14, 4, 0, i}})         // [x].0
-				emit(core.Case{Fam: "term", N: []int{8, 5, 0, i, 0, 2, 0, 2}}) // [x, 1][1]
-				emit(core.Case{Fam: "term", N: []int{8, 0, i, 0, 0}})       // x[0]
-				emit(core.Case{Fam: "term", N: []int{7, 0, i}})             // x.k
+				emit(core.Case{Fam: "term", N: []int{7, 6, 0, i}})                // {k: x}.k
+				emit(core.Case{Fam: "term", N: []int{8, 6, 0, i, 0, 18}})         // {k: x}['k'] via 'k'? operand 18 = 'a'.. uses key a: missing
+				emit(core.Case{Fam: "term", N: []int{8, 4, 0, i, 0, 0}})          // [x][0]
+				emit(core.Case{Fam: "term", N: []int{14, 4, 0, i}})               // [x].0
+				emit(core.Case{Fam: "term", N: []int{8, 5, 0, i, 0, 2, 0, 2}})    // [x, 1][1]
+				emit(core.Case{Fam: "term", N: []int{8, 0, i, 0, 0}})             // x[0]
+				emit(core.Case{Fam: "term", N: []int{7, 0, i}})                   // x.k
 				emit(core.Case{Fam: "term", N: []int{13, 3, 0, 18, 0, i, 0, 22}}) // "a#{x}b"
 			}
 		}},
